@@ -226,17 +226,6 @@ impl Selection {
         }
     }
 
-    pub(crate) fn contains_fragment(&self, fragment_id: ResolvedFragmentId, query: &Query) -> bool {
-        match self {
-            Selection::FragmentSpread(id) => *id == fragment_id,
-            _ => self.subselection().iter().any(|selection_id| {
-                query
-                    .get_selection(*selection_id)
-                    .contains_fragment(fragment_id, query)
-            }),
-        }
-    }
-
     pub(crate) fn subselection(&self) -> &[SelectionId] {
         match self {
             Selection::Field(field) => field.selection_set.as_slice(),
